@@ -545,6 +545,8 @@ function norm (n) {
   }
   if (o.type === 'TemplateElement') { /* cooked + raw both compared */ o.rawText = n.raw }
   if (o.type === 'RegExpLiteral') { o.pattern = n.pattern; o.flags = n.flags }
+  // swc: a variable reference / binding (Ident) carries `optional`, a property name (IdentName) does not
+  if (o.type === 'Identifier') o.$isRef = ('optional' in n)
   if (o.type === 'Identifier' && o.optional === false) delete o.optional
   if ((o.type === 'MemberExpression' || o.type === 'CallExpression') && !o.inChain) { delete o.optional; delete o.inChain }
   return o
